@@ -771,10 +771,8 @@ def run(ck: Check):
                 ob_stats[ob_k] = ob_stats.get(ob_k, 0) + 1
                 had_error = any(x.startswith("AError") for x in evs[:ob_idx + 1])
                 had_fail = any(x.startswith("SFail") for x in evs[:ob_idx + 1])
-                sig = {1: SIG_UNREGISTERED if had_error else None,
-                       3: SIG_NO_ENDTXN if had_error else None,
-                       4: SIG_NO_ENDTXN if had_error else None,
-                       2: SIG_BATCH_LOST if had_fail else None}.get(ob_k) or f"model-obligation-{ob_k}"
+                # (obligations 1, 3, 4 used to be broken by defects that are repaired: no known signature)
+                sig = {2: SIG_BATCH_LOST if had_fail else None}.get(ob_k) or f"model-obligation-{ob_k}"
                 key = ("ob", sig)
                 ob_seen[key] = ob_seen.get(key, 0) + 1
                 if ob_seen[key] <= 2:
